@@ -411,22 +411,42 @@ def oracle_c16(ctx, focus, langs=None):
             "rule": "k in [0,6] zeros x cardinals n<10^9 (C01 input sets), lone zero, zero after a number"}
 
 
+def _norm_words(lang, phrase, conj):
+    """words of a phrase with hyphens opened, conjunction words removed (conjunctions are optional, as in
+    C01), French plural s stripped (plural scale words are an accepted variant)"""
+    ws = [w for part in phrase.split(" ") for w in part.split("-") if w]
+    ws = [w for w in ws if w != conj]
+    if lang == "fr":
+        ws = [w.rstrip("s") if (w != "trois" and len(w) > 3) else w for w in ws]
+    return tuple(ws)
+
+
 def oracle_c08(ctx, focus, langs=None):
     failures, n, distinct = [], 0, set()
     for li, lang in enumerate(langs or LANGS):
         rng = SplitMix64(ctx.seed * 13 + li)
-        gl = []
+        # table: normalised spelling -> numbers below 200 it spells (all variant seeds 0..47)
+        tl = ["gen\tcard\t%s\t%d\t%d" % (lang, c, sd) for c in range(200) for sd in range(48)]
+        spell_of = {}
+        std = {}
+        conj = unesc(run_gen(ctx, "c08j" + lang, ["gen\tpair\t%s\t1\t1\t1" % lang])[0].split("|")[0]).split(" ")
+        conj = conj[1] if len(conj) == 3 else ""
+        for g, ph, exp in _spec_cases(ctx, "c08t" + lang, tl):
+            c = int(g.split("\t")[3])
+            spell_of.setdefault(_norm_words(lang, ph, conj), set()).add(c)
+            if g.endswith("\t0") and c < 100:
+                std[c] = ph
+        cases = []
         for a in range(100):
             for b in range(100):
                 for j in (0, 1):
-                    gl.append("gen\tpair\t%s\t%d\t%d\t%d" % (lang, a, b, j))
-        outs = run_gen(ctx, "c08" + lang, gl)
-        cases = []
-        for g, o in zip(gl, outs):
-            if "|" not in o:
-                continue
-            ph, allowed = o.split("|", 1)
-            cases.append((g, unesc(ph), [unesc(x) for x in allowed.split(";")]))
+                    ph = std[a] + (" " + conj if j else "") + " " + std[b]
+                    allowed = ["%d %s %d" % (a, conj, b) if j else "%d %d" % (a, b)]
+                    if a == 0:
+                        allowed.append("0%d" % b)
+                    for c in sorted(spell_of.get(_norm_words(lang, ph, conj), ())):
+                        allowed.append(str(c))
+                    cases.append(("pair %s %d %d %d" % (lang, a, b, j), ph, allowed))
         reqs = ["text\t%s\t0000000000000000\t%s" % (lang, esc(ph)) for (g, ph, al) in cases]
         res = run_impl(ctx, "c08" + lang, reqs)
         for r, o, (g, ph, al) in zip(reqs, res, cases):
@@ -928,3 +948,630 @@ def oracle_c07(ctx, focus):
     ctx.samples["c07"] = [{"lang": "it", "stream": " ".join(streams_[3])}]
     return {"evaluations": n, "distinct_nontrivial": len(distinct), "failures": failures[:60],
             "rule": "random word streams over each language's full vocabulary (repeated scale words, conjunctions anywhere): scanner spans re-validated, valid phrases re-scanned, unconverted words re-validated"}
+
+
+# ------------------------------------------------------------------------------------------------
+# C09: lone-number policy
+
+def _f64(bits):
+    import struct
+    return struct.unpack("<d", struct.pack("<Q", int(bits, 16)))[0]
+
+
+def oracle_c09(ctx, focus):
+    failures, n, distinct = [], 0, set()
+    chain = [float("-inf"), -1.0, 0.0, 0.5, 1.0, 5.0, 9.0, 10.0, 10.5, 1e9, float("inf")]
+    thrs = [t2nlib.thr_bits(x) for x in chain] + [t2nlib.thr_bits(float("nan"))]
+    for li, lang in enumerate(LANGS):
+        rng = SplitMix64(ctx.seed * 409 + li)
+        bank = phrase_bank(ctx, lang)
+        small_bank = [p for p in bank if len(p.split(" ")) == 1] or bank
+        link = [w for w in linking_words(lang)]
+        ordw = [w for w in streams.ORDINARY[lang] if w not in ("un", "le", "du", "l'", "numéro", "s", "c", "eine")]
+        texts = []
+        for _ in range(700 if ctx.tier != "thorough" else 12000):
+            k = 1 + rng.below(7)
+            parts = []
+            for i in range(k):
+                r = rng.below(100)
+                if r < 45:
+                    w = rng.choice(small_bank)
+                elif r < 60:
+                    w = rng.choice(bank)
+                elif r < 75:
+                    w = rng.choice(ordw)
+                elif r < 90 and link:
+                    w = rng.choice(link)
+                else:
+                    w = rng.choice(ordw)
+                if i:
+                    parts.append(rng.choice([" ", " ", " ", ", ", ". ", "; ", " . ", ": ", "! ", ".", " - "]))
+                parts.append(w.upper() if rng.chance(1, 10) else w)
+            texts.append("".join(parts))
+        reqs = []
+        for t in texts:
+            for th in thrs:
+                reqs.append("occ\t%s\t%s\t%s" % (lang, th, esc(t)))
+        outs = run_impl(ctx, "c09" + lang, reqs)
+        linkset = set(link)
+        for ti, t in enumerate(texts):
+            res = [parse_occ_answer(outs[ti * len(thrs) + j]) for j in range(len(thrs))]
+            n += len(thrs)
+            rq = lambda j: reqs[ti * len(thrs) + j]
+            if any(r[0] is None for r in res):
+                failures.append(fail(t, "PANIC", "returns", [rq(0)], lang=lang, what="panic"))
+                continue
+            base_i = chain.index(0.0)
+            base, toks = res[base_i]
+            key = lambda o: (o[0], o[1], o[2], o[3], o[4])
+            baseset = [key(o) for o in base]
+            distinct.add((lang, tuple(baseset)))
+            # thresholds <= 0 and NaN rewrite everything
+            for j in (0, 1, len(thrs) - 1):
+                if [key(o) for o in res[j][0]] != baseset:
+                    failures.append(fail(t, "occ(%s) differs from occ(0)" % thrs[j], "threshold <= 0 or NaN rewrites everything", [rq(j), rq(base_i)], lang=lang, what="zero-all"))
+            # adjacency among the recognised numbers
+            def ignorable(tok):
+                tx = tok[0]
+                if _is_skipped_text(tx):
+                    return True
+                if all(not c.isalpha() for c in tx) and tx.strip() != ".":
+                    return True
+                return tx.lower() in linkset
+            adj = [all(ignorable(toks[x]) for x in range(base[i][1], base[i + 1][0])) for i in range(len(base) - 1)]
+            for j, thv in enumerate(chain):
+                got = [key(o) for o in res[j][0]]
+                if any(g not in baseset for g in got):
+                    failures.append(fail(t, "occ(%s) not a subset of occ(0): %s" % (thv, got), str(baseset), [rq(j), rq(base_i)], lang=lang, what="recognition-depends-on-threshold"))
+                    continue
+                if j > 0 and any(g not in [key(o) for o in res[j - 1][0]] for g in got):
+                    failures.append(fail(t, "occ(%s) not a subset of occ(%s)" % (thv, chain[j - 1]), "monotone", [rq(j), rq(j - 1)], lang=lang, what="monotone"))
+                exp = []
+                for i, o in enumerate(base):
+                    val = _f64(o[4])
+                    small = (len(o[2].encode("utf-8")) == 1 or o[3]) and (val < thv)
+                    near = (i > 0 and adj[i - 1] and base[i - 1][3] == o[3]) or (i + 1 < len(base) and adj[i] and base[i + 1][3] == o[3])
+                    if (not small) or near:
+                        exp.append(key(o))
+                if got != exp:
+                    failures.append(fail(t, "threshold %s: kept %s" % (thv, [g[2] for g in got]), "kept %s (small & isolated numbers hidden, nothing else)" % [e[2] for e in exp],
+                                         [rq(j), rq(base_i)], lang=lang, what="policy"))
+        ctx.samples.setdefault("c09", []).append({"lang": lang, "text": texts[3]})
+    return {"evaluations": n, "distinct_nontrivial": len(distinct), "failures": failures[:60],
+            "rule": "sentences of small/large cardinals, ordinals, decimals, breakers, linking words, periods vs commas, at the threshold chain (-inf,-1,0,0.5,1,5,9,10,10.5,1e9,inf,NaN); policy recomputed from occ(0)"}
+
+
+# ------------------------------------------------------------------------------------------------
+# C10: context independence
+
+STRONG = {
+    "en": ["the cat sleeps here", "we went home today", "nothing else happened there"],
+    "fr": ["nous sommes partis hier", "elle mange très vite", "rien ne change jamais"],
+    "es": ["nosotros fuimos ayer tarde", "ella come muy rápido", "nada cambia nunca aquí"],
+    "pt": ["fomos para casa ontem", "ela come muito depressa", "nada muda nunca aqui"],
+    "it": ["siamo andati via ieri", "lei mangia molto veloce", "niente cambia mai qui"],
+    "de": ["wir gingen gestern heim", "sie isst sehr schnell", "nichts ändert sich hier"],
+    "nl": ["wij gingen gisteren weg", "zij eet heel snel", "niets verandert hier ooit"],
+}
+
+
+def oracle_c10(ctx, focus):
+    failures, n, distinct = [], 0, set()
+    thrs = [THR0, t2nlib.thr_bits(5.0), t2nlib.thr_bits(10.0), t2nlib.thr_bits(float("inf")), t2nlib.thr_bits(float("nan"))]
+    for li, lang in enumerate(LANGS):
+        rng = SplitMix64(ctx.seed * 503 + li)
+        bank = phrase_bank(ctx, lang)
+        small_bank = [p for p in bank if len(p.split(" ")) == 1] or bank
+        extra = {"fr": ["neuf", "le", "du", "un", "cent neuf", "vingt neuf", "numéro neuf"], "en": ["o", "o eight", "thirty o"]}.get(lang, [])
+        reqs, meta = [], []
+        for _ in range(800 if ctx.tier != "thorough" else 15000):
+            a = sentence(rng, lang, bank + small_bank, extra=extra)
+            b = sentence(rng, lang, bank + small_bank, extra=extra)
+            if rng.chance(1, 3):
+                a = a + " " + rng.choice(small_bank)          # a held small number at the end of A
+            if rng.chance(1, 3) and extra:
+                b = rng.choice(extra) + " " + b
+            if rng.chance(1, 3) and extra:
+                a = a + " " + rng.choice(extra)
+            if not a[-1].isalnum() or not b[0].isalnum():
+                continue
+            s = " " + rng.choice(STRONG[lang]) + ". "
+            th = rng.choice(thrs)
+            for t in (a + s + b, a, b):
+                reqs.append("text\t%s\t%s\t%s" % (lang, th, esc(t)))
+            meta.append((a, s, b))
+        outs = run_impl(ctx, "c10" + lang, reqs)
+        for i, (a, s, b) in enumerate(meta):
+            n += 3
+            whole, ra, rb = (unesc(outs[3 * i + j]) for j in range(3))
+            if whole != ra + s + rb:
+                failures.append(fail(a + s + b, whole, ra + s + rb, reqs[3 * i:3 * i + 3], lang=lang, what="context"))
+            distinct.add((lang, ra, rb))
+        # punctuation always keeps two numbers apart
+        puncts = [", ", ". ", "; ", ": ", "! ", "? ", " / ", " (", ") ", "\" ", ",", ".", ";", "!", "?", " , ", " . ", "...", " … ", "/", "(", ": - ", ".-"]
+        gl = []
+        nums = [0, 1, 2, 5, 9, 10, 12, 20, 21, 30, 70, 80, 99, 100, 101, 1000, 2020] if ctx.tier != "thorough" else list(range(0, 130)) + [1000, 2020, 10 ** 6]
+        for x in nums:
+            gl.append("gen\tcard\t%s\t%d\t0" % (lang, x))
+        cards = _spec_cases(ctx, "c10p" + lang, gl)
+        preqs, pmeta = [], []
+        for (g1, p1, e1) in cards:
+            for (g2, p2, e2) in cards:
+                if ctx.tier != "thorough" and not rng.chance(1, 3):
+                    continue
+                p = rng.choice(puncts)
+                preqs.append("text\t%s\t%s\t%s" % (lang, THR0, esc(p1 + p + p2)))
+                pmeta.append((p1 + p + p2, unesc(e1) + p + unesc(e2)))
+        pouts = run_impl(ctx, "c10q" + lang, preqs)
+        for r, o, (t, want) in zip(preqs, pouts, pmeta):
+            n += 1
+            if unesc(o) != want:
+                failures.append(fail(t, unesc(o), want, [r], lang=lang, what="punctuation"))
+        ctx.samples.setdefault("c10", []).append({"lang": lang, "A": meta[0][0], "S": meta[0][1], "B": meta[0][2]})
+    return {"evaluations": n, "distinct_nontrivial": len(distinct), "failures": failures[:60],
+            "rule": "rewrite(A S B) = rewrite(A) S rewrite(B) for random A, B (held small numbers, neuf/o near the boundaries), S = 3-4 ordinary words + period, 5 thresholds; number-punctuation-number grid"}
+
+
+# ------------------------------------------------------------------------------------------------
+# C11: letter case never matters
+
+def recasings(rng, s):
+    out = []
+    for f in (str.upper, str.capitalize, str.title, lambda x: "".join(c.upper() if rng.chance(1, 2) else c for c in x)):
+        r = f(s)
+        if r != s and r.lower() == s.lower() and len(r) == len(s):
+            out.append(r)
+    return out
+
+
+def oracle_c11(ctx, focus):
+    failures, n, distinct = [], 0, set()
+    thrs = [THR0, t2nlib.thr_bits(5.0), t2nlib.thr_bits(10.0)]
+    for li, lang in enumerate(LANGS):
+        rng = SplitMix64(ctx.seed * 601 + li)
+        bank = phrase_bank(ctx, lang)
+        reqs, meta = [], []
+        for _ in range(700 if ctx.tier != "thorough" else 12000):
+            t = sentence(rng, lang, bank, extra=linking_words(lang) + ["o", "neuf"]).lower()
+            if t.lower() != t:
+                continue
+            for r in recasings(rng, t):
+                th = rng.choice(thrs)
+                reqs += ["occ\t%s\t%s\t%s" % (lang, th, esc(t)), "occ\t%s\t%s\t%s" % (lang, th, esc(r)),
+                         "val\t%s\t%s" % (lang, esc(t)), "val\t%s\t%s" % (lang, esc(r))]
+                meta.append((t, r))
+        outs = run_impl(ctx, "c11" + lang, reqs)
+        for i, (t, r) in enumerate(meta):
+            n += 4
+            o1, _ = parse_occ_answer(outs[4 * i])
+            o2, tk2 = parse_occ_answer(outs[4 * i + 1])
+            if o1 != o2:
+                failures.append(fail(r, "occurrences %s" % [(o[0], o[1], o[2]) for o in (o2 or [])], "as for %r: %s" % (t, [(o[0], o[1], o[2]) for o in (o1 or [])]),
+                                     reqs[4 * i:4 * i + 2], lang=lang, what="case"))
+            if outs[4 * i + 2] != outs[4 * i + 3]:
+                failures.append(fail(r, "validate -> " + unesc(outs[4 * i + 3]), unesc(outs[4 * i + 2]), reqs[4 * i + 2:4 * i + 4], lang=lang, what="case-validate"))
+            distinct.add((lang, t))
+        ctx.samples.setdefault("c11", []).append({"lang": lang, "lower": meta[1][0], "recased": meta[1][1]})
+    return {"evaluations": n, "distinct_nontrivial": len(distinct), "failures": failures[:60],
+            "rule": "sentences (numbers, linking words, breakers) in lower / UPPER / Capitalised / Title / rAnDoM case with reversible case mapping, thresholds 0/5/10; occurrences and validation compared"}
+
+
+# ------------------------------------------------------------------------------------------------
+# C13: facade = concrete interpreter; ISO lookup
+
+def oracle_c13(ctx, focus):
+    failures, n, distinct = [], 0, set()
+    for li, lang in enumerate(LANGS):
+        rng = SplitMix64(ctx.seed * 701 + li)
+        bank = phrase_bank(ctx, lang)
+        base = []
+        import vocab
+        words = [w for w in vocab.source_literals(lang) if w and " " not in w and not w.isdigit()]
+        states = vocab.states_for(lang, "quick")
+        for _ in range(1500 if ctx.tier != "thorough" else 30000):
+            w = rng.choice(words) if rng.chance(3, 4) else rng.choice(bank).split(" ")[0]
+            st = rng.choice(states)
+            base.append("apply\t%s\t%s\t%s" % ("{L}", esc(w), st))
+            base.append("applydec\t%s\t%s\t%s" % ("{L}", esc(w), st))
+            base.append("morph\t{L}\t%s" % esc(w))
+            base.append("sep\t{L}\t%s" % esc(w))
+            base.append("link\t{L}\t%s" % esc(w))
+            if not st.startswith("|0|"):
+                base.append("fmt\t{L}\t%s" % st)
+                base.append("fmtdec\t{L}\t%s\t%s" % (st, rng.choice(states)))
+        for _ in range(600 if ctx.tier != "thorough" else 10000):
+            t = sentence(rng, lang, bank, extra=["o", "neuf", "le", "un"])
+            th = rng.choice(ALL_THR)
+            base.append("text\t{L}\t%s\t%s" % (th, esc(t)))
+            base.append("occ\t{L}\t%s\t%s" % (th, esc(t)))
+            base.append("val\t{L}\t%s" % esc(t))
+            toks = " ".join("%s,%s,%d,%d,%d" % (esc(w), esc(w.lower()), rng.below(10) == 0, 0, 0) for w in t.split(" "))
+            base.append("scan\t{L}\t%s\t%s" % (th, toks))
+            base.append("annot\t{L}\t%s" % toks)
+        reqs = []
+        for b in base:
+            reqs += [b.replace("{L}", lang), b.replace("{L}", "L:" + lang), b.replace("{L}", "G:" + lang)]
+        outs = run_impl(ctx, "c13" + lang, reqs)
+        for i, b in enumerate(base):
+            n += 3
+            c, f, g = outs[3 * i], outs[3 * i + 1], outs[3 * i + 2]
+            if f != c:
+                failures.append(fail(b, "facade: " + f[:200], "concrete: " + c[:200], reqs[3 * i:3 * i + 2], lang=lang, what="delegation"))
+            if g != c:
+                failures.append(fail(b, "via get_interpreter_for: " + g[:200], "concrete: " + c[:200], [reqs[3 * i], reqs[3 * i + 2]], lang=lang, what="lookup-delegation"))
+            distinct.add(c)
+    # lookup table
+    lreqs, limpl, _ = ctx._cache.get("lookup", ([], [], []))
+    for r, a in zip(lreqs, limpl):
+        n += 1
+        code = unesc(r.split("\t")[1])
+        want = "some:" + code if code in LANGS else "none"
+        if a != want:
+            failures.append(fail(code, a, want, [r], what="iso-lookup"))
+    ctx.samples["c13"] = [{"request": "apply via en / L:en / G:en", "note": "every trait method and API function through the three paths"}]
+    return {"evaluations": n, "distinct_nontrivial": len(distinct), "failures": failures[:60],
+            "rule": "every trait method (apply, apply_decimal, get_morph_marker, is_decimal_sep, is_linking, format_and_value, format_decimal_and_value, basic_annotate) and API function through X::new(), Language::X and get_interpreter_for; lookup over all strings of length<=2 on [a-z] + case variants + junk"}
+
+
+# ------------------------------------------------------------------------------------------------
+# C14: stateless, pure, shareable; no output on the standard streams
+
+def oracle_c14(ctx, focus):
+    import subprocess, glob
+    failures, n = [], 0
+    # the call mix: a slice of every stream (compounds for the de/it/nl splitter, texts for both annotators)
+    lines = []
+    rng = SplitMix64(ctx.seed * 809)
+    import io
+    for lang in LANGS:
+        buf = io.StringIO()
+        streams.s_text(lang, "quick", ctx.seed, buf, phrases=phrase_bank(ctx, lang))
+        streams.s_val(lang, "quick", ctx.seed, buf, phrases=phrase_bank(ctx, lang))
+        streams.s_scan(lang, "quick", ctx.seed, buf, phrases=phrase_bank(ctx, lang))
+        ls = buf.getvalue().split("\n")
+        ls = [l for l in ls if l]
+        step = max(1, len(ls) // (400 if ctx.tier != "thorough" else 4000))
+        lines += ls[::step]
+        lines += [l.replace("\t%s\t" % lang, "\tL:%s\t" % lang, 1) for l in ls[::step * 3]]
+        bank = phrase_bank(ctx, lang)
+        for ph in bank[:: max(1, len(bank) // 60)]:
+            for w in ph.split(" "):
+                lines.append("apply\t%s\t%s\t|0|0|0|-" % (lang, esc(w)))
+    reqp = ctx.path("c14.req")
+    with open(reqp, "w", encoding="utf-8") as f:
+        for l in lines:
+            f.write(l + "\n")
+    rounds = 2 if ctx.tier != "thorough" else 12
+    for sd in (ctx.seed, ctx.seed + 1, ctx.seed + 2):
+        r = subprocess.run([t2nlib.HARNESS_BIN, "threads", reqp, "16", str(rounds), str(sd)], capture_output=True, text=True)
+        out = r.stdout.split("\n")
+        m = re.match(r"calls=(\d+) mismatches=(\d+)", out[0] if out else "")
+        if r.returncode != 0 or not m:
+            failures.append(fail("threads run", "harness rc=%d %s" % (r.returncode, r.stderr[-300:]), "runs", [], what="threads-crash"))
+            continue
+        n += int(m.group(1))
+        for l in out[1:]:
+            if l.startswith("MISMATCH"):
+                _, rq, got, exp = (l.split("\\t") + ["", "", ""])[:4]
+                failures.append(fail(rq, "shared interpreter / other history: " + got[:200], "fresh interpreter: " + exp[:200], [rq], what="history-dependence"))
+    # silence of the standard streams
+    r = subprocess.run([t2nlib.HARNESS_BIN, "quiet", reqp], capture_output=True)
+    n += len(lines)
+    if r.stdout or r.stderr:
+        # find one request that produces output (bisect by halves)
+        lo, hi = 0, len(lines)
+        cur = lines
+        while len(cur) > 1:
+            half = cur[:len(cur) // 2]
+            hp = ctx.path("c14h.req")
+            open(hp, "w", encoding="utf-8").write("\n".join(half) + "\n")
+            rr = subprocess.run([t2nlib.HARNESS_BIN, "quiet", hp], capture_output=True)
+            cur = half if (rr.stdout or rr.stderr) else cur[len(cur) // 2:]
+        failures.append(fail(cur[0], "stdout=%r stderr=%r" % (r.stdout[:200], r.stderr[:300]), "no output on the standard streams", [cur[0]], what="stdio"))
+    # static facts reported in the evidence (not a Lean result): unsafe / interior mutability / print macros in non-test code
+    suspects = []
+    for p in glob.glob(os.path.join(t2nlib.REPO, "src", "**", "*.rs"), recursive=True):
+        src = open(p, encoding="utf-8").read()
+        code = src.split("#[cfg(test)]")[0]
+        code = re.sub(r"/\*.*?\*/", lambda m: "\n" * m.group(0).count("\n"), code, flags=re.S)   # block (doc) comments
+        for ln, line in enumerate(code.split("\n"), 1):
+            st = line.strip()
+            if st.startswith("//"):
+                continue
+            if re.search(r"\b(dbg!|println!|eprintln!|print!|eprint!)|io::stdout|io::stderr", st):
+                suspects.append("%s:%d: %s" % (os.path.relpath(p, t2nlib.REPO), ln, st[:100]))
+            if re.search(r"\bunsafe\b|static mut|RefCell|\bCell<|Mutex|RwLock|Atomic[A-Z]|thread_local!|lazy_static|OnceCell|OnceLock", st):
+                suspects.append("%s:%d: %s" % (os.path.relpath(p, t2nlib.REPO), ln, st[:100]))
+    ctx.samples["c14"] = [{"threads": 16, "requests": len(lines), "rounds": rounds, "static_suspects": suspects[:10]}]
+    res = {"evaluations": n, "distinct_nontrivial": len(set(lines)), "failures": failures[:40], "static_suspects": suspects,
+           "rule": "one shared set of interpreters (and Language values), 16 threads x seeded random calls drawn from text/val/scan/apply streams of all 7 languages, each answer compared with a fresh interpreter's; fd1/fd2 of a child running the call mix must stay empty; Send+Sync asserted at compile time"}
+    if suspects and not failures:
+        res["tie_broken"] = "print/unsafe/interior-mutability site in non-test code: " + "; ".join(suspects[:3])
+    return res
+
+
+# ------------------------------------------------------------------------------------------------
+# C15: lazy iterator = batch; hints
+
+def _parse_scan(req, ans):
+    f = req.split("\t")
+    toks = []
+    for x in f[3].split(" "):
+        if x:
+            p = x.split(",")
+            toks.append(dict(text=unesc(p[0]), lower=unesc(p[1]) if len(p) > 1 else "", nan=(len(p) > 2 and p[2] == "1"),
+                             start=int(p[3]) if len(p) > 3 else 0, end=int(p[4]) if len(p) > 4 else 0))
+    parts = ans.split("|")
+    occs = [x for x in parts[0].split(",") if x]
+    trace = [x for x in parts[1].split(",") if x]
+    return f[1], f[2], toks, occs, trace
+
+
+def _span(o):
+    s, e = o.split(":")[0].split("-")
+    return int(s), int(e)
+
+
+def oracle_c15(ctx, focus):
+    failures, n, distinct = [], 0, set()
+    pool = []
+    for key in list(ctx._cache.keys()):
+        if key.startswith("scan_") or key == "script":
+            sreqs, simpl, _ = ctx._cache[key]
+            pool.append((sreqs, simpl))
+    # all recognised numbers (threshold-independent): re-run the same token streams at threshold 0
+    extra_reqs, owner = [], []
+    for pi, (sreqs, simpl) in enumerate(pool):
+        for i, r in enumerate(sreqs):
+            f = r.split("\t")
+            extra_reqs.append("\t".join([f[0], f[1], THR0, f[3]]))
+            owner.append((pi, i))
+    zero = run_impl(ctx, "c15z", extra_reqs)
+    zmap = {owner[k]: zero[k] for k in range(len(owner))}
+    comma_reqs, comma_meta = [], []
+    for pi, (sreqs, simpl) in enumerate(pool):
+        for i, (r, a) in enumerate(zip(sreqs, simpl)):
+            n += 1
+            if a == "PANIC":
+                failures.append(fail(r[:300], "PANIC", "returns", [r], what="panic"))
+                continue
+            lang, thr, toks, occs, trace = _parse_scan(r, a)
+            distinct.add(a.split("|")[0])
+            # lazy = batch, then ends
+            if not trace or trace[0] != "@0":
+                failures.append(fail(r.split("\t")[3][:300], "consumed before first request: %s" % trace[:1], "@0", [r], what="eager"))
+            items = [t for t in trace[1:] if not t.startswith("N@")]
+            tail_ = trace[1 + len(items):]
+            if [t.rsplit("@", 1)[0] for t in items] != occs:
+                failures.append(fail(r.split("\t")[3][:300], "iterator yields %s" % [t.rsplit("@", 1)[0] for t in items], "batch %s" % occs, [r], what="iter-vs-batch"))
+                continue
+            if len(tail_) < 3 or any(not t.startswith("N@") for t in tail_):
+                failures.append(fail(r.split("\t")[3][:300], "after the last item: %s" % tail_, "None, None, None", [r], what="iter-end"))
+            # bounded look-ahead: never beyond the second recognised number after the one returned
+            allocc = [x for x in zmap[(pi, i)].split("|")[0].split(",") if x] if zmap[(pi, i)] != "PANIC" else []
+            starts = sorted(_span(o)[0] for o in allocc)
+            for t in items:
+                o, c = t.rsplit("@", 1)
+                s, e = _span(o)
+                later = [x for x in starts if x >= e]
+                bound = later[1] + 1 if len(later) >= 2 else len(toks)
+                if int(c) > bound:
+                    failures.append(fail(r.split("\t")[3][:300], "returned %s after consuming %s tokens" % (o, c), "at most %d (second number after it starts at %s)" % (bound, later[1] if len(later) >= 2 else "-"), [r], what="look-ahead"))
+            # hints
+            nonskipped = [j for j, tk in enumerate(toks) if not _is_skipped_text(tk["text"])]
+            for (s, e) in map(_span, occs):
+                for j in range(s, e):
+                    if toks[j]["nan"] and not _is_skipped_text(toks[j]["text"]):
+                        failures.append(fail(r.split("\t")[3][:300], "token %d (not a number part) inside occurrence %d-%d" % (j, s, e), "outside every occurrence", [r], what="nan-hint"))
+            prev = None
+            sep_positions = []
+            for j in nonskipped:
+                if prev is not None and toks[j]["start"] > toks[prev]["end"] + 100:
+                    sep_positions.append((prev, j))
+                prev = j
+            for (p_, j) in sep_positions:
+                for (s, e) in map(_span, occs):
+                    if s <= p_ and j < e:
+                        failures.append(fail(r.split("\t")[3][:300], "separated tokens %d and %d in the same occurrence %d-%d" % (p_, j, s, e), "never joined", [r], what="separation-hint"))
+            # comma equivalence: clear the hints and insert a comma token before each separated token
+            if sep_positions and len(comma_reqs) < (4000 if ctx.tier != "thorough" else 60000):
+                cut = {j for (_, j) in sep_positions}
+                new, remap, t_ = [], {}, 0
+                for j, tk in enumerate(toks):
+                    if j in cut:
+                        new.append("%s,%s,0,%d,%d" % (esc(","), esc(","), t_, t_ + 10))
+                        t_ += 10
+                    remap[j] = len(new)
+                    new.append("%s,%s,%d,%d,%d" % (esc(tk["text"]), esc(tk["lower"]), 1 if tk["nan"] else 0, t_, t_ + 10))
+                    t_ += 10
+                comma_reqs.append("scan\t%s\t%s\t%s" % (lang, thr, " ".join(new)))
+                comma_meta.append((r, occs, remap))
+    couts = run_impl(ctx, "c15c", comma_reqs)
+    for cr, co, (r, occs, remap) in zip(comma_reqs, couts, comma_meta):
+        n += 1
+        if co == "PANIC":
+            continue
+        got = [x for x in co.split("|")[0].split(",") if x]
+        want = []
+        for o in occs:
+            s, e = _span(o)
+            want.append("%d-%d:%s" % (remap[s], remap[e - 1] + 1, o.split(":", 1)[1]))
+        if got != want:
+            failures.append(fail(r.split("\t")[3][:300], "with a comma spoken instead of the hint: %s" % got, "same occurrences %s" % want, [r, cr], what="hint-is-comma"))
+    ctx.samples["c15"] = [{"request": pool[0][0][len(pool[0][0]) // 2][:200], "answer": pool[0][1][len(pool[0][0]) // 2][:300]}] if pool else []
+    return {"evaluations": n, "distinct_nontrivial": len(distinct), "failures": failures[:60],
+            "rule": "every token stream of the correspondence step (scripted language: exhaustive short streams with nan/separation hints at every position; concrete languages: random): iterator trace vs batch, consumption counter vs spans, hints vs spans, comma-insertion metamorphic"}
+
+
+# ------------------------------------------------------------------------------------------------
+# C17: whitespace kind and amount never matter
+
+WS_CHARS = ["\t", "\n", "\x0b", "\x0c", "\r", " ", "\x85", " ", " ", " ", " ", " ", " ", " ",
+            " ", " ", " ", " ", " ", " ", " ", " ", " ", " ", "　"]
+
+
+def ws_substitute(rng, s):
+    out, i = [], 0
+    while i < len(s):
+        if s[i].isspace():
+            j = i
+            while j < len(s) and s[j].isspace():
+                j += 1
+            out.append("".join(rng.choice(WS_CHARS) for _ in range(1 + rng.below(3))))
+            i = j
+        else:
+            out.append(s[i])
+            i += 1
+    t = "".join(out)
+    if rng.chance(1, 3):
+        t = rng.choice(WS_CHARS) + t
+    if rng.chance(1, 3):
+        t = t + rng.choice(WS_CHARS)
+    return t
+
+
+def oracle_c17(ctx, focus):
+    failures, n, distinct = [], 0, set()
+    thrs = [THR0, t2nlib.thr_bits(5.0), t2nlib.thr_bits(10.0), t2nlib.thr_bits(float("inf"))]
+    for li, lang in enumerate(LANGS):
+        rng = SplitMix64(ctx.seed * 907 + li)
+        bank = phrase_bank(ctx, lang)
+        reqs, meta = [], []
+        for _ in range(900 if ctx.tier != "thorough" else 15000):
+            t = sentence(rng, lang, bank, extra=["o", "neuf", "le", "un", "."] + linking_words(lang)[:6])
+            t = re.sub(r"\s+", " ", t).strip()
+            if not t:
+                continue
+            w = ws_substitute(rng, t)
+            th = rng.choice(thrs)
+            reqs += ["occ\t%s\t%s\t%s" % (lang, th, esc(t)), "occ\t%s\t%s\t%s" % (lang, th, esc(w)),
+                     "val\t%s\t%s" % (lang, esc(t)), "val\t%s\t%s" % (lang, esc(w)),
+                     "text\t%s\t%s\t%s" % (lang, th, esc(w))]
+            meta.append((t, w))
+        outs = run_impl(ctx, "c17" + lang, reqs)
+        for i, (t, w) in enumerate(meta):
+            n += 5
+            o1, tk1 = parse_occ_answer(outs[5 * i])
+            o2, tk2 = parse_occ_answer(outs[5 * i + 1])
+            if o1 is None or o2 is None:
+                failures.append(fail(w, "PANIC", "returns", reqs[5 * i:5 * i + 2], lang=lang, what="panic"))
+                continue
+            a = [(o[2], o[3], o[4]) for o in o1]
+            b = [(o[2], o[3], o[4]) for o in o2]
+            if a != b:
+                failures.append(fail(w, "occurrences %s" % [x[0] for x in b], "as with single spaces: %s" % [x[0] for x in a], reqs[5 * i:5 * i + 2], lang=lang, what="whitespace"))
+            else:
+                # spans cover the same words
+                wa = [[x[0] for x in tk1[o[0]:o[1]] if not x[0].isspace()] for o in o1]
+                wb = [[x[0] for x in tk2[o[0]:o[1]] if not x[0].isspace()] for o in o2]
+                norm = lambda ws: [re.sub(r"\s+", " ", x) for x in ws]
+                if [norm(x) for x in wa] != [norm(x) for x in wb]:
+                    failures.append(fail(w, "spans cover %s" % wb, "%s" % wa, reqs[5 * i:5 * i + 2], lang=lang, what="whitespace-span"))
+            if outs[5 * i + 2] != outs[5 * i + 3]:
+                failures.append(fail(w, "validate -> " + unesc(outs[5 * i + 3]), unesc(outs[5 * i + 2]), reqs[5 * i + 2:5 * i + 4], lang=lang, what="whitespace-validate"))
+            # whitespace outside rewritten spans is passed through untouched: output = splice over the tokens of w
+            out, pos = [], 0
+            for o in o2:
+                out.extend(x[0] for x in tk2[pos:o[0]])
+                out.append(o[2])
+                pos = o[1]
+            out.extend(x[0] for x in tk2[pos:])
+            if "".join(out) != unesc(outs[5 * i + 4]):
+                failures.append(fail(w, unesc(outs[5 * i + 4]), "".join(out), [reqs[5 * i + 4]], lang=lang, what="whitespace-passthrough"))
+            distinct.add((lang, t))
+        ctx.samples.setdefault("c17", []).append({"lang": lang, "text": meta[2][0], "substituted": meta[2][1]})
+    return {"evaluations": n, "distinct_nontrivial": len(distinct), "failures": failures[:60],
+            "rule": "each whitespace run replaced by runs drawn from all 25 White_Space code points (+ leading/trailing additions); occurrences, validation and pass-through compared"}
+
+
+# ------------------------------------------------------------------------------------------------
+# C18: English 'o'
+
+def oracle_c18(ctx, focus):
+    failures, n, distinct = [], 0, set()
+    lang = "en"
+    rng = SplitMix64(ctx.seed * 1009)
+    thrs = [THR0, t2nlib.thr_bits(1.0), t2nlib.thr_bits(10.0), t2nlib.thr_bits(float("inf")), t2nlib.thr_bits(float("nan"))]
+    numw = ["one", "eight", "twelve", "twenty", "hundred", "thousand", "first", "third", "twenty-one", "zero", "fifth", "nought", "ninety"]
+    plain = ["cat", "x", "oscar", "the", "and", "is", "s", "point", "a"]
+    punct = [",", ".", ";", "!", "-", "(", "...", ":"]
+    neigh = numw + plain + punct + ["o", "O", ""]
+    wss = [" ", "  ", " ", "\t", " ", "\n"]
+    texts = []
+
+    def build(seq, ws):
+        # join neighbours with whitespace; punctuation glued as written
+        out = []
+        for k, w in enumerate(seq):
+            if w == "":
+                continue
+            if out:
+                out.append(ws())
+            out.append(w)
+        return "".join(out)
+    for l in neigh:
+        for r in neigh:
+            for l2 in (["", "cat", "two"] if ctx.tier != "thorough" else neigh):
+                texts.append([l2, l, "o", r])
+                texts.append([l, "o", r, l2])
+    for _ in range(1500 if ctx.tier != "thorough" else 30000):
+        k = 2 + rng.below(6)
+        seq = [rng.choice(neigh + ["o", "o"]) for _ in range(k)]
+        if "o" not in seq and "O" not in seq:
+            seq[rng.below(k)] = "o"
+        texts.append(seq)
+    reqs, meta = [], []
+    for seq in texts:
+        wsk = rng.choice(wss)
+        ws = (lambda wsk=wsk: wsk)
+        t = build(seq, ws)
+        # expected reading: each `o` behaves like `zero` if the nearest non-whitespace token on either side is a number word,
+        # else like an ordinary word. Tokens: words and punctuation runs as tokenized; decide on the token sequence.
+        th = rng.choice(thrs)
+        reqs.append("occ\t%s\t%s\t%s" % (lang, th, esc(t)))
+        meta.append((t, th))
+    outs = run_impl(ctx, "c18a", reqs)
+    # phase 2: substitute according to the rule, using the implementation's own tokenization of t
+    reqs2, meta2 = [], []
+    probe = {}
+    cand = sorted({x[0].lower() for o in outs if o != "PANIC" for x in parse_occ_answer(o)[1]})
+    pr = run_impl(ctx, "c18p", ["apply\ten\t%s\t|0|0|0|-" % esc(w) for w in cand])
+    for w, a in zip(cand, pr):
+        probe[w] = a.startswith("OK")
+    for (t, th), o in zip(meta, outs):
+        n += 1
+        if o == "PANIC":
+            failures.append(fail(t, "PANIC", "returns", [], what="panic"))
+            continue
+        occs, toks = parse_occ_answer(o)
+        sig = [i for i, x in enumerate(toks) if not all(c.isspace() for c in x[0])]
+        subst = [x[0] for x in toks]
+        expect_nan = {}
+        for k, i in enumerate(sig):
+            if toks[i][0].lower() == "o":
+                prev_ok = k > 0 and probe.get(toks[sig[k - 1]][0].lower(), False)
+                next_ok = k + 1 < len(sig) and probe.get(toks[sig[k + 1]][0].lower(), False)
+                isnum = prev_ok or next_ok
+                expect_nan[i] = not isnum
+                subst[i] = "zero" if isnum else "xyzzy"
+        for i, want in expect_nan.items():
+            if toks[i][1] != want:
+                failures.append(fail(t, "token %d 'o' annotated not-a-number=%s" % (i, toks[i][1]), "not-a-number=%s (neighbour is %sa number word)" % (want, "not " if want else ""),
+                                     ["occ\ten\t%s\t%s" % (th, esc(t))], lang="en", what="o-annotation"))
+        t2 = "".join(subst)
+        reqs2 += ["occ\ten\t%s\t%s" % (th, esc(t)), "occ\ten\t%s\t%s" % (th, esc(t2))]
+        meta2.append((t, t2))
+        distinct.add(tuple(x[0].lower() for x in toks if not x[0].isspace()))
+    outs2 = run_impl(ctx, "c18b", reqs2)
+    for i, (t, t2) in enumerate(meta2):
+        n += 2
+        a, ta = parse_occ_answer(outs2[2 * i])
+        b, tb = parse_occ_answer(outs2[2 * i + 1])
+        if a is None or b is None or len(ta) != len(tb):
+            failures.append(fail(t, "PANIC or different tokenization", "same tokens as %r" % t2, reqs2[2 * i:2 * i + 2], lang="en", what="o-as-zero"))
+        elif a != b:
+            failures.append(fail(t, "occurrences %s" % [(o[0], o[1], o[2]) for o in a], "%s   (those of %r)" % ([(o[0], o[1], o[2]) for o in b], t2),
+                                 reqs2[2 * i:2 * i + 2], lang="en", what="o-as-zero"))
+    ctx.samples["c18"] = [{"text": meta2[5][0], "equivalent": meta2[5][1]}] if len(meta2) > 5 else []
+    return {"evaluations": n, "distinct_nontrivial": len(distinct), "failures": failures[:60],
+            "rule": "left/right neighbours of 'o' over number words of every class, ordinary words, punctuation, 'o', text boundaries x whitespace kinds x thresholds {0,1,10,inf,NaN}; compared with the sentence where 'o' is 'zero' resp. an ordinary word"}
